@@ -12,6 +12,7 @@ import (
 	"github.com/cossacklabs/acra/decryptor/base"
 	my "github.com/cossacklabs/acra/decryptor/mysql"
 	mybase "github.com/cossacklabs/acra/decryptor/mysql/base"
+	"github.com/cossacklabs/acra/encryptor/base/config"
 
 	"verifharness/internal/core"
 )
@@ -308,4 +309,115 @@ func myDecodeBinRow(types []uint16, b []byte) (Row, bool) {
 		b = b[n:]
 	}
 	return r, len(b) == 0
+}
+
+// ---------- column definitions ----------
+
+// myColDef builds a ColumnDefinition41 payload (canonical encoding, no default value).
+func myColDef(schema, table, orgTable, name, orgName []byte, charset uint16, length uint32, typ byte, flags uint16, decimals byte) []byte {
+	var out []byte
+	for _, s := range [][]byte{[]byte("def"), schema, table, orgTable, name, orgName} {
+		if s == nil {
+			s = []byte{}
+		}
+		out = append(out, mybase.PutLengthEncodedString(s)...)
+	}
+	out = append(out, 0x0c, byte(charset), byte(charset>>8), byte(length), byte(length>>8), byte(length>>16), byte(length>>24), typ, byte(flags), byte(flags>>8), decimals, 0, 0)
+	return out
+}
+
+func init() {
+	// C12.my.coldef <declared type|none> <seq> <payload>: parse a column definition packet, let the real
+	// updateFieldEncodedType rewrite it for a column `c` of table `t` with that data_type, dump it.
+	core.Register("C12.my.coldef", func(a []string) string {
+		payload := core.UnHex(a[2])
+		hdr := []byte{byte(len(payload)), byte(len(payload) >> 8), byte(len(payload) >> 16), byte(core.Atoi(a[1]))}
+		p := my.VerifNewPacket(hdr, payload)
+		field, err := my.ParseResultField(p, false)
+		if err != nil {
+			return core.Err
+		}
+		yaml := "schemas:\n  - table: t\n    columns:\n      - id\n      - c\n    encrypted:\n      - column: c\n"
+		if a[0] != "none" {
+			yaml += "        data_type: " + a[0] + "\n"
+		}
+		store, err := config.MapTableSchemaStoreFromConfig([]byte(yaml), config.UseMySQL)
+		if err != nil {
+			panic("harness: schema: " + err.Error())
+		}
+		my.VerifUpdateFieldEncodedType(field, store)
+		return core.OkHex(field.Dump())
+	})
+}
+
+// ---------- COM_STMT_EXECUTE parameters ----------
+
+func init() {
+	// C12.my.execute <nparams> <trs> <seq> <payload>: GetBindParameters → transform the non-NULL values
+	// (BoundValue.SetData, as the query encryptors do in OnBind) → SetParameters → Dump
+	core.Register("C12.my.execute", func(a []string) string {
+		n := core.Atoi(a[0])
+		ts := parseTrs(a[1])
+		payload := append([]byte{}, core.UnHex(a[3])...)
+		payload = payload[:len(payload):len(payload)]
+		hdr := []byte{byte(len(payload)), byte(len(payload) >> 8), byte(len(payload) >> 16), byte(core.Atoi(a[2]))}
+		p := my.VerifNewPacket(hdr, payload)
+		vals, err := p.GetBindParameters(n)
+		if err != nil {
+			return core.Err
+		}
+		for i, v := range vals {
+			if v == nil {
+				return "nil-values" // new_params_bind_flag = 0: the parameters are not available
+			}
+			d, err := v.GetData(nil)
+			if err != nil {
+				return core.Err
+			}
+			if d == nil {
+				continue
+			}
+			out, err := applyTrs(ts, i, d)
+			if err != nil {
+				return core.Err
+			}
+			if out == nil {
+				out = []byte{}
+			}
+			if err := v.SetData(out, nil); err != nil {
+				return core.Err
+			}
+		}
+		if err := p.SetParameters(vals); err != nil {
+			return core.Err
+		}
+		return core.OkHex(p.Dump())
+	})
+}
+
+// myExecute builds a COM_STMT_EXECUTE payload: types[i] with flag byte, values nil = NULL (bitmap)
+func myExecute(stmtID uint32, flags byte, types [][2]byte, vals Row) []byte {
+	out := []byte{0x17, byte(stmtID), byte(stmtID >> 8), byte(stmtID >> 16), byte(stmtID >> 24), flags, 1, 0, 0, 0}
+	bm := make([]byte, (len(vals)+7)/8)
+	for i, v := range vals {
+		if v == nil {
+			bm[i/8] |= 1 << (i % 8)
+		}
+	}
+	out = append(out, bm...)
+	out = append(out, 1)
+	for _, t := range types {
+		out = append(out, t[0], t[1])
+	}
+	for i, v := range vals {
+		if v == nil {
+			continue
+		}
+		if myFixedWidth(int(types[i][0])) >= 0 {
+			out = append(out, v...)
+		} else {
+			out = append(out, mybase.PutLengthEncodedString(v)...)
+		}
+	}
+	return out
 }
